@@ -83,7 +83,7 @@ def _ns_tests(ctx, f):
                 cont = ctx.fold(r, f)
                 if isinstance(cont, (tuple, list, frozenset, set)) and set(cont) <= NS and cont or (isinstance(cont, str) and cont in NS):
                     lt = canon(l).replace(" ", "")
-                    if "split('.',1)[0]" in lt or lt in ("key", "k", "prefix", "root", "namespace"):
+                    if "split('.',1)[0]" in lt or "partition('.')[0]" in lt or isinstance(l, ast.Name):
                         res.append((n, "component"))
                     else:
                         res.append((n, "other:" + lt))
@@ -141,9 +141,9 @@ def c07_b(ctx: Ctx):
     for f in gb.nested_all:
         if f.name == "keyfunction":
             for n in body_nodes(f):
-                if isinstance(n, ast.Subscript) and isinstance(n.slice, ast.Name) and n.slice.id in ("stripped_key", "k") and ("statepoint" in canon(n.value) or "document" in canon(n.value)):
+                if isinstance(n, ast.Subscript) and isinstance(n.slice, ast.Name) and ("statepoint" in canon(n.value) or "document" in canon(n.value)):
                     flat.append((f, n))
-                if isinstance(n, ast.Call) and isinstance(n.func, ast.Attribute) and n.func.attr == "get" and n.args and isinstance(n.args[0], ast.Name) and n.args[0].id in ("stripped_key", "k"):
+                if isinstance(n, ast.Call) and isinstance(n.func, ast.Attribute) and n.func.attr == "get" and n.args and isinstance(n.args[0], ast.Name) and ("statepoint" in canon(n.func.value) or "document" in canon(n.func.value)):
                     flat.append((f, n))
     handles_dots = any("split('.')" in canon(n) or "_nested" in canon(n) for f in gb.nested_all for n in body_nodes(f) if isinstance(n, ast.Call)) and not strips_any
     k = f"{gb.qual}|flat-subscript"
@@ -162,7 +162,12 @@ def c07_c(ctx: Ctx):
     R = "C07-c"
     gb = ctx.fn(CUR + ".groupby")
     out = []
-    first = [n for n in body_nodes(gb) if isinstance(n, ast.Assign) and any(isinstance(t, ast.Name) and t.id == "_filter" for t in n.targets)]
+    # the filter variable: whatever local is handed to find_jobs() in the end
+    q = [c for c in body_nodes(gb) if isinstance(c, ast.Call) and isinstance(c.func, ast.Attribute) and c.func.attr == "find_jobs"]
+    if not q or not q[0].args or not isinstance(q[0].args[0], ast.Name):
+        return [ctx.viol(R, gb, gb.node, "the grouped jobs are not queried with a constructed filter (find_jobs(<filter variable>))")]
+    FV = q[0].args[0].id
+    first = [n for n in body_nodes(gb) if isinstance(n, ast.Assign) and any(isinstance(t, ast.Name) and t.id == FV for t in n.targets)]
     if not first or canon(first[0].value) != "self._filter":
         return [ctx.viol(R, gb, gb.node, "groupby does not start from the cursor's own filter")]
     out.append(ctx.ok(R, gb, first[0], "groupby starts from the cursor's filter"))
@@ -170,7 +175,7 @@ def c07_c(ctx: Ctx):
         facts = common.facts_at(ctx, gb, a, "n")
         v = a.value
         t = canon(v)
-        if ("_filter is None", True) in facts:
+        if (FV + " is None", True) in facts:
             if "$exists" in t:
                 out.append(ctx.ok(R, gb, a, "no cursor filter: the query is the $exists pre-filter alone"))
             else:
@@ -178,16 +183,16 @@ def c07_c(ctx: Ctx):
             continue
         # cursor filter present
         is_and = isinstance(v, ast.Dict) and len(v.keys) == 1 and isinstance(v.keys[0], ast.Constant) and v.keys[0].value == "$and" \
-            and isinstance(v.values[0], (ast.List, ast.Tuple)) and any(isinstance(e, ast.Name) and e.id == "_filter" for e in v.values[0].elts)
+            and isinstance(v.values[0], (ast.List, ast.Tuple)) and any(isinstance(e, ast.Name) and e.id == FV for e in v.values[0].elts)
         if is_and and "$exists" in t:
             out.append(ctx.ok(R, gb, a, "the $exists pre-filter is combined with the cursor's filter by $and"))
         elif isinstance(v, ast.Dict) and any(k is None for k in v.keys):
             out.append(ctx.viol(R, gb, a, f"the cursor's filter and the $exists pre-filter are merged into one mapping ({t[:70]}): when the filter constrains the grouping key itself "
                                 "the $exists entry replaces that constraint and jobs outside the selection are grouped"))
-        elif isinstance(v, ast.Call) and isinstance(v.func, ast.Name) and v.func.id == "dict" and "_filter" in names_in(v) and (v.keywords or len(v.args) > 1):
+        elif isinstance(v, ast.Call) and isinstance(v.func, ast.Name) and v.func.id == "dict" and FV in names_in(v) and (v.keywords or len(v.args) > 1):
             out.append(ctx.viol(R, gb, a, f"the cursor's filter and the $exists pre-filter are merged into one mapping ({t[:70]}): when the filter constrains the grouping key itself "
                                 "the $exists entry replaces that constraint and jobs outside the selection are grouped"))
-        elif isinstance(v, ast.Call) and isinstance(v.func, ast.Name) and "_filter" in names_in(v):
+        elif isinstance(v, ast.Call) and isinstance(v.func, ast.Name) and FV in names_in(v):
             # a helper builds the combined filter: any return that merges the two mappings into one is the violating shape
             tg = [t for t in gb.nested_all if t.name == v.func.id] or [t for t in ctx.calls.resolve_call(gb, v)[0]]
             merged = None
@@ -210,13 +215,12 @@ def c07_c(ctx: Ctx):
                 out.append(ctx.ok(R, gb, a, f"helper {v.func.id} combines the pre-filter with the cursor's filter by $and"))
             else:
                 out.append(ctx.inc(R, gb, a, "unrecognised filter construction: " + t[:60]))
-        elif "_filter" not in names_in(v):
+        elif FV not in names_in(v):
             out.append(ctx.viol(R, gb, a, "the cursor's filter is dropped when the $exists pre-filter is built: jobs outside the selection are grouped"))
         else:
             out.append(ctx.inc(R, gb, a, "unrecognised filter construction: " + t[:60]))
-    q = [c for c in body_nodes(gb) if isinstance(c, ast.Call) and isinstance(c.func, ast.Attribute) and c.func.attr == "find_jobs"]
-    if q and q[0].args and canon(q[0].args[0]) == "_filter":
-        out.append(ctx.ok(R, gb, q[0], "the grouped jobs are find_jobs(_filter)"))
+    if q and q[0].args and canon(q[0].args[0]) == FV:
+        out.append(ctx.ok(R, gb, q[0], "the grouped jobs are find_jobs(<the constructed filter>)"))
     else:
         out.append(ctx.viol(R, gb, gb.node, "the grouped jobs are not queried with the constructed filter"))
     # pre-filter only when no default
